@@ -5,6 +5,9 @@ CONSTANTS
   InitLen = 4
   Fixed = TRUE
   Ids <- IdsClasses
+  ServeFails = TRUE
+  DeferUnreport = TRUE
+  LockedAdd = TRUE
 INVARIANTS NoPanic OutcomeOK CountersNonNeg CountersBalanced LockNotLeaked NoWedge
 PROPERTIES EveryOpenEnds LaterStreamsServed
 CHECK_DEADLOCK FALSE
